@@ -98,6 +98,7 @@ class _Gen:
             if m == 0:
                 tasks += [("coef", 0, "P1t")] * rng.randint(0, 2)
                 tasks += [("const", 0, (g, g))] * rng.randint(0, 2)
+                tasks += [("const", 0, (g, g, g, g))] * rng.choice([0, 0, 1])
             tasks += [("mesh", m)]
         tasks += [("index",)] * rng.randint(3, 6)
         rng.shuffle(tasks)
@@ -230,6 +231,15 @@ class _Gen:
             i = rng.choice(self.indices)
             h = rng.choice(pool)
             return P.emit("mul", [self.R(P.emit("dxi", [f], ix=["i", i])), self.R(P.emit("dxi", [h], ix=["i", i]))])
+        if fam == "rep2":
+            # one subscript with two different repeated indices (a double trace of a rank-4 tensor)
+            c4 = [c for (m, sh), v in self.consts.items() if sh == (g, g, g, g) for c in v]
+            if not c4 or len(self.indices) < 2:
+                return None
+            i, j = rng.sample(self.indices, 2)
+            pat = rng.choice([[i, i, j, j], [i, j, i, j], [i, j, j, i], [j, j, i, i]])
+            self.features.add("double-trace")
+            return P.emit("idx", [rng.choice(c4)], ix=[["i", q] for q in pat])
         if fam == "tcontr":
             ts = [c for (m, e), v in self.coefs.items() if e == "P1t" for c in v]
             ts = [self.R(t) for t in ts] + [c for (m, sh), v in self.consts.items() if sh == (g, g) for c in v]
@@ -295,7 +305,7 @@ class _Gen:
         """A commutative list (sum or product) of >= 3 atoms of the same family."""
         rng, P = self.rng, self.P
         fams = ["const"] * 6 + ["coef"] * 3 + ["gq"] * 4 + ["xcomp"] * 2 + ["var"] * 3 + ["vcomp"] * 2 + ["contr"] * 2
-        fams += ["deriv", "tcontr", "zerofi", "listtensor", "compound", "ncomp"]
+        fams += ["deriv", "tcontr", "zerofi", "listtensor", "compound", "ncomp", "rep2", "rep2"]
         fam = fam or rng.choice(fams)
         n = rng.randint(3, 5)
         atoms = []
@@ -388,7 +398,13 @@ class _Gen:
         if self.arity <= 1 and rng.random() < 0.2:
             pool = [c for (m, e), v in self.coefs.items() if m == 0 and e == self.scal_el[0] for c in v]
             if pool:
-                f = P.emit("derivative", [f, rng.choice(pool)])
+                if len(pool) >= 2 and rng.random() < 0.5:
+                    # with respect to a tuple of coefficients (the direction is created by UFL on their mixed space)
+                    two = rng.sample(pool, 2)
+                    f = P.emit("derivative", [f] + two)
+                    self.features.add("derivative-tuple")
+                else:
+                    f = P.emit("derivative", [f, rng.choice(pool)])
                 self.features.add("derivative")
         return f
 
@@ -650,7 +666,7 @@ def build(recipe, conf):
         elif o == "fadd":
             v = a[0] + a[1]
         elif o == "derivative":
-            v = ufl.derivative(a[0], a[1])
+            v = ufl.derivative(a[0], a[1]) if len(a) == 2 else ufl.derivative(a[0], tuple(a[1:]))
         else:
             raise HarnessError("unknown op " + o)
         vals.append(v)
